@@ -1,6 +1,10 @@
-/- Line-protocol driver for engine `fuzz` — not built yet (stub). -/
+/- Line-protocol driver for engine `fuzz` (C16): `fz <mode> <pool> <schema> | op ; op ; …`.
+   One word per op: `ok-or-error` for every string offered as SQL (the property's oracle: a result or an error,
+   never a panic or a hang — the harness prints `PROPFAIL …` otherwise), and the predicted outcome class
+   (`rows` / `error`) for grammar statements whose class the schema determines. -/
+import AxVerif.Model.Fuzz
 namespace AxVerif.Drivers
 
-def fuzz (_flags : List String) (_line : String) : String := "unimplemented"
+def fuzz (_flags : List String) (line : String) : String := AxVerif.Fuzz.stepLine line
 
 end AxVerif.Drivers
